@@ -86,6 +86,7 @@ struct RunResult {
 };
 
 enum FilterMode { NONE, AS_DOC, AS_VARIANT };
+static bool gOneMode = false;
 
 inline RunResult runOnce(bool msgpack, const std::string& input, const MValue* filter, FilterMode mode, int limit = 10) {
   RunResult R;
@@ -174,7 +175,7 @@ inline void pairCheck(Ctx& C, bool msgpack, const std::string& input, const RunR
         C.failKey(key, "memory", "filtered run peak=" + std::to_string(F.peak) + " bytes, unfiltered peak=" + std::to_string(U.peak));
       if (F.total > U.total) C.metrics["filtered_runs_with_larger_cumulative_request"] += 1;
     }
-    if (mode == AS_DOC && C.flag("one-mode")) break;
+    if (mode == AS_DOC && (gOneMode || C.flag("one-mode"))) break;
   }
 }
 
@@ -234,6 +235,99 @@ inline void run(Ctx& C) {
     withLimitPass = false;
     for (int k = Ni + 1; k <= bigN; k++) GB.exact(k, 0, perInput);
     C.bound("plus all inputs with " + std::to_string(Ni + 1) + ".." + std::to_string(bigN) + " nodes over the 5 JSON-expressible leaves at the default nesting limit");
+  }
+  // ---- 1b. what the skip routines see: other spellings of the same leaves (escapes, both quote kinds, signs and exponent
+  //          marks, literals, whitespace, unquoted keys) and long / wide MessagePack values, each embedded in the shapes that
+  //          put it in a discarded member, a discarded element, below a discarded container and in a discarded key
+  const std::string spell = C.opt("spellings", "all");  // all | width (MessagePack header widths only) | none
+  if (spell != "none") {
+    // filters of this pass: every filter with <= 2 nodes and every deeper chain ({"a":{..}}, [[..]], ...)
+    std::vector<MValue> sfilters;
+    for (auto& f : filters)
+      if (f.nodes() <= 2 || f.nesting() >= 2) sfilters.push_back(f);
+    auto perText = [&](bool msgpack, const std::string& input, const std::string& label) {
+      if (C.expired()) return;
+      if (!C.take()) return;
+      C.begin("filter-spelling:" + label + ":" + (msgpack ? hex(input.substr(0, 40)) + (input.size() > 40 ? "..(" + std::to_string(input.size()) + " bytes)" : "") : vis(input)));
+      RunResult U = runOnce(msgpack, input, nullptr, NONE);
+      if (U.code != DeserializationError::Ok) {
+        C.outcome("spelling-not-accepted-unfiltered");  // not a valid input of this dialect: outside "every well-formed input"
+        C.end();
+        return;
+      }
+      C.nontrivial();
+      gOneMode = input.size() > 4096;  // very long inputs: one filter mode
+      for (auto& f : sfilters) {
+        pairs++;
+        pairCheck(C, msgpack, input, U, f, mtext(f));
+      }
+      gOneMode = false;
+      C.end();
+    };
+    const char* jsonLeaves[] = {"\"\\\\\"", "\"\\\"\"", "\"'\"", "'\"'", "'a'", "'\\''", "\"C:\\\\tmp\\\\\"", "\"\\u00e9\\ud83d\\ude00\"", "\"a\\nb\\/\"",
+                                "-1", "1e+2", "1E2", "1E+2", "1e-1", "-0.5", "+1", "0", "1.5e300", "18446744073709551615", "-9223372036854775808",
+                                "false", "null", "true", " 1 ", "[ 1 , 2 ]", "{ \"a\" : 1 }", "[]", "{}"};
+    for (const char* L : jsonLeaves) {
+      if (spell != "all") break;
+      std::string l = L;
+      perText(false, "{\"a\":" + l + ",\"b\":1}", "member");
+      perText(false, "[" + l + ",1]", "element");
+      perText(false, "{\"a\":[" + l + "],\"b\":1}", "below-array");
+      perText(false, "{\"a\":{\"b\":" + l + "},\"c\":1}", "below-object");
+      perText(false, "{\"c\":{\"a\":" + l + ",\"b\":2},\"a\":" + l + "}", "twice");
+    }
+    const char* jsonKeys[] = {"\"\\\\\"", "\"\\\"\"", "'k'", "k", "\"\\u00e9\"", "\"a b\"", "\"'\""};
+    for (const char* K : jsonKeys) {
+      if (spell != "all") break;
+      std::string k = K;
+      perText(false, "{\"a\":{" + k + ":1},\"b\":1}", "key-below");
+      perText(false, "{" + k + ":1,\"b\":1}", "key");
+      perText(false, "[{" + k + ":[1]},1]", "key-in-element");
+    }
+    // MessagePack: long payloads (around the 32-byte and the 8/16/32-bit header boundaries) and every header width of the short leaves
+    std::vector<MValue> wide;
+    for (size_t n : std::vector<size_t>{31, 32, 33, 64, 255, 256, 65535 > detail::StringNode::maxLength ? size_t(200) : size_t(65535)}) wide.push_back(MValue::str(std::string(n, 'w')));
+    for (size_t n : std::vector<size_t>{32, 256}) {
+      wide.push_back(MValue::raw(refmp::makeBin(std::string(n, 'b'))));
+      wide.push_back(MValue::raw(refmp::makeExt(7, std::string(n, 'e'))));
+    }
+    wide.push_back(MValue::raw(refmp::makeExt(7, std::string(31, 'e'))));
+    auto shapes = [&](const MValue& leaf, const std::function<void(const MValue&, const char*)>& f) {
+      MValue one = MValue::integer(1);
+      MValue m = MValue::object();
+      m.o.emplace_back("a", leaf);
+      m.o.emplace_back("b", one);
+      f(m, "member");
+      MValue e = MValue::array();
+      e.a = {leaf, one};
+      f(e, "element");
+      MValue inner = MValue::array();
+      inner.a = {leaf};
+      MValue ba = MValue::object();
+      ba.o.emplace_back("a", inner);
+      ba.o.emplace_back("b", one);
+      f(ba, "below-array");
+      MValue io = MValue::object();
+      io.o.emplace_back("b", leaf);
+      MValue bo = MValue::object();
+      bo.o.emplace_back("a", io);
+      bo.o.emplace_back("c", one);
+      f(bo, "below-object");
+    };
+    if (spell == "all")
+      for (auto& w : wide) shapes(w, [&](const MValue& t, const char* label) { perText(true, refmp::encode(t), std::string("wide-") + label); });
+    {
+      MValue neg = MValue::integer(-1), f15 = MValue::f64(1.5), str = MValue::str("s"), big = MValue::integer(300);
+      for (const MValue* leaf : {&neg, &f15, &str, &big})
+        shapes(*leaf, [&](const MValue& t, const char* label) {
+          std::set<std::string> seen;
+          refmp::encodings(t, 1, [&](const std::string& bytes, const std::string&) {
+            if (seen.insert(bytes).second) perText(true, bytes, std::string("width-") + label);
+          });
+        });
+    }
+    C.bound("skip routines: 28 further JSON leaf spellings x 5 shapes and 7 key spellings x 3 shapes, MessagePack payloads of 31..65535 bytes x 4 shapes and every "
+            "header width of int / float / str leaves (<= 1 non-minimal node, and all maximal), each against " + std::to_string(sfilters.size()) + " filters (all with <= 2 nodes, all deeper chains)");
   }
   // ---- 2. filter `true` is the identity on every input, and arbitrary filters are safe, over a malformed space
   {
